@@ -81,6 +81,45 @@ NEEDS = {
  "C18-w2m2": ("C18", "crop: misplaced break, the left-edge scan only consults zones_ids[0]", ">= 2 ids and the leftmost selected column holding no cell of the first-listed id"),
  "C19-w2m1": ("C19", "great_circle_distance range checks: first-point latitude compared with 180", "first-point latitude with 90 < |y1| <= 180"),
  "C19-w2m2": ("C19", "circle_kernel swaps half-width and half-height for non-square cells", "int(r/cellsize_x) != int(r/cellsize_y)"),
+ # ---- wave 3 (agents were told the four earlier ideas and the trigger dimensions already used) ----
+ "C01-w3m1": ("C01", "generate_terrain on Dask builds the y axis from the scaled x window", "Dask, full_extent given, x/y windows at different relative positions"),
+ "C01-w3m2": ("C01", "hillshade on Dask forwards its options through `if v` (falsy 0 dropped)", "Dask and azimuth == 0 or angle_altitude == 0"),
+ "C02-w3m1": ("C03", "validate_arrays compares chunksize (largest chunk) instead of the chunk tuples (property C03's mechanism)", "Dask zones/values with equal largest chunk but different block boundaries"),
+ "C02-w3m2": ("C02", "stats: absent zone_ids located by np.searchsorted without an equality check", "a requested id that is absent and smaller than the largest zone (NumPy)"),
+ "C03-w3m1": ("C03", "Dask stats selects requested rows by dropna(how='all') instead of by zone id", "zone_ids given and a requested zone whose cells are all invalid"),
+ "C03-w3m2": ("C03", "_sort_and_stride vectorised: break offsets not carried forward over ids missing from a block", "a block holding ids a and c but no cell of an existing id b, a < b < c"),
+ "C04-w3m1": ("C04", "3-D crosstab matches layers to the SORTED layer labels", "3-D values whose layer labels are not ascending"),
+ "C04-w3m2": ("C04", "percentage denominator summed over the selected category columns", "agg='percentage' with cat_ids omitting a category present in a selected zone"),
+ "C05-w3m1": ("C05", "observer cell located by truncating index arithmetic instead of nearest centre", "observer x/y off the cell centre with fractional part >= 0.5"),
+ "C05-w3m2": ("C05", "shortcut: observer eye above the raster maximum => every cell visible", "eye strictly above the highest cell and relief that hides cells"),
+ "C06-w3m1": ("C07", "Dask proximity map_overlap boundary=0 (property C07's mechanism)", "0 among target_values, finite max_distance, origin near the raster"),
+ "C06-w3m2": ("C06", "`max_distance = max_distance or inf`", "max_distance exactly 0"),
+ "C07-w3m1": ("C07", "Dask path regenerates coordinates with linspace(first, last, n)", "a coordinate axis that is not evenly spaced"),
+ "C07-w3m2": ("C07", "Dask empty-chunk shortcut tests np.nansum(img) == 0", "default targets of both signs cancelling inside a padded chunk"),
+ "C08-w3m1": ("C08", "hillshade: `azimuth = azimuth or 225`, `angle_altitude = angle_altitude or 25`", "a sun angle exactly 0"),
+ "C08-w3m2": ("C08", "hillshade small-raster guard `min(shape) <= 3` returns all NaN", "raster with exactly 3 rows or columns (or 1-thick interior Dask chunks)"),
+ "C09-w3m1": ("C01", "Dask focal apply clamps its halo to the smallest chunk (property C01's mechanism)", "kernel half-size larger than the smallest chunk"),
+ "C09-w3m2": ("C09", "hotspots p-value tier loses abs(): -99 never produced", "neighbourhood z-score below -2.58"),
+ "C10-w3m1": ("C10", "get_dataarray_resolution normalises a negative res component in place", "attrs['res'] a mutable sequence with negative y"),
+ "C10-w3m2": ("C10", "validate_arrays snaps the other rasters' coordinates onto the first raster's", "two raster arguments whose coordinates are close but not identical"),
+ "C11-w3m1": ("C11", "perlin: `if seed:` instead of `is not None` - seed 0 does not re-seed", "perlin(seed=0)"),
+ "C11-w3m2": ("C11", "focal_stats de-duplicates stats_funcs through set() (hash-randomised order)", "duplicate stat names, compared across interpreters with different PYTHONHASHSEED"),
+ "C12-w3m1": ("C12", "equal_interval constant-raster guard uses np.isclose(max, min)", "value range tiny relative to magnitude (1e6 .. 1e6+8)"),
+ "C12-w3m2": ("C12", "natural_breaks sorts the caller's raster in place (ravel view, conditional copy)", "NaN-free unsorted C-contiguous raster, no sub-sampling"),
+ "C13-w3m1": ("C13", "SIPI kernel vectorised without the zero-denominator guard", "nir == red and nir != blue"),
+ "C13-w3m2": ("C13", "true_color: `if not nodata:` replaces an explicit nodata=0", "nodata == 0 and red in (0, 1]"),
+ "C14-w3m1": ("C14", "snap scan: column pruning uses break instead of continue", "snapped end point in column >= 2 with the nearest crossable cell in a later row"),
+ "C14-w3m2": ("C14", "open-cell sentinel lowered to height + width", "a route whose cost reaches height + width (winding corridors)"),
+ "C15-w3m1": ("C15", "region id compaction resolves only ids inside the merge table", "> 64 provisional regions and an earlier merge"),
+ "C15-w3m2": ("C15", "boundary scan exits once all regions are done", "a hole starting at a masked cell / diagonal crossing after the last region's first cell"),
+ "C16-w3m1": ("C16", "merge pass: relabel loops folded, running minimum not updated", "neighborhood 8, three arms meeting diagonally at one interior cell (>= 4x6)"),
+ "C16-w3m2": ("C16", "regions() result built from the dimension coordinates only", "input with scalar / auxiliary coordinates"),
+ "C17-w3m1": ("C17", "default data_vars: `var not in ref_var` (substring test on the name)", "a data layer whose name is a proper substring of the reference name"),
+ "C17-w3m2": ("C17", "highest_position scans with a zero-initialised running maximum", "a cell whose values are all <= 0 with the first layer not the maximum"),
+ "C18-w3m1": ("C18", "trim: empty exclusion set replaced by (NaN,)", "values=() / [] and all-NaN border rows or columns"),
+ "C18-w3m2": ("C18", "crop fast path compares a count with multiplicity to the number of distinct zones", "zones_ids with repeated ids"),
+ "C19-w3m1": ("C19", "great_circle_distance antimeridian wrap subtracts pi", "longitudes differing by more than 180 degrees"),
+ "C19-w3m2": ("C19", "_get_distance returns bare numeric strings before the non-positive check", "unit-less zero / small negative radius"),
 }
 
 # first detection run (before the checks were extended): which seeded changes the quick tier of the responsible check missed,
